@@ -149,6 +149,27 @@ pub enum Tr {
     Enum(Box<Tr>, Box<Tr>),
 }
 
+impl Tr {
+    /// the attributes of an element are an unordered set: sort the leading run of `@` keys of every map
+    pub fn with_sorted_attributes(&self) -> Tr {
+        match self {
+            Tr::Map(entries) => {
+                let mut e: Vec<(Tr, Tr)> = entries.iter().map(|(k, v)| (k.clone(), v.with_sorted_attributes())).collect();
+                let n = e.iter().take_while(|(k, _)| matches!(k, Tr::Str(s) if s.starts_with('@'))).count();
+                // (two attributes with different prefixes and the same local name arrive under the
+                // same key - documented: only the local name is kept - so the value breaks the tie)
+                e[..n].sort_by(|a, b| format!("{:?}", a).cmp(&format!("{:?}", b)));
+                Tr::Map(e)
+            }
+            Tr::Some(x) => Tr::Some(Box::new(x.with_sorted_attributes())),
+            Tr::Newtype(x) => Tr::Newtype(Box::new(x.with_sorted_attributes())),
+            Tr::Seq(v) => Tr::Seq(v.iter().map(|x| x.with_sorted_attributes()).collect()),
+            Tr::Enum(k, v) => Tr::Enum(k.clone(), Box::new(v.with_sorted_attributes())),
+            other => other.clone(),
+        }
+    }
+}
+
 thread_local! {
     static STEPS: Cell<usize> = Cell::new(0);
     static BUDGET: Cell<usize> = Cell::new(usize::MAX);
